@@ -257,11 +257,15 @@ def seqElCtx (ctx : Ctx) (len : Nat) : Ctx := ctx.nested.withStrategy (if len ==
 /-- what pretty_dict computes per pair before laying the pairs out: key, key doc, value doc, re-rendered value doc -/
 abbrev PairDocs := PyVal × Doc × Doc × Doc
 
-def insertPD (x : PairDocs) : List PairDocs → List PairDocs
+/-- insertion by `<` on the keys, generic in what is carried along with each key -/
+def insertK {α} (x : PyVal × α) : List (PyVal × α) → List (PyVal × α)
   | [] => [x]
-  | y :: r => if pyLt (stripComments x.1) (stripComments y.1) == some true then x :: y :: r else y :: insertPD x r
+  | y :: r => if pyLt (stripComments x.1) (stripComments y.1) == some true then x :: y :: r else y :: insertK x r
 /-- stable insertion sort by `<` on the keys (Python's `sorted` is stable and uses only `<`) -/
-def sortPDs (xs : List PairDocs) : List PairDocs := xs.reverse.foldl (fun acc x => insertPD x acc) []
+def sortK {α} (xs : List (PyVal × α)) : List (PyVal × α) := xs.reverse.foldl (fun acc x => insertK x acc) []
+
+def insertPD (x : PairDocs) (xs : List PairDocs) : List PairDocs := insertK x xs
+def sortPDs (xs : List PairDocs) : List PairDocs := sortK xs
 
 def dictPartsOf (ind : Int) (n : Nat) : List PairDocs → Nat → List Doc × Bool
   | [], _ => ([], false)
